@@ -876,6 +876,43 @@ theorem engine_gate_matches_tree :
 -- non-vacuity: an UPDATE (opcode 5) is NOTIMP on every engine path, a plain query is accepted
 example : acceptVerdict 0x2800 1 0 0 0 = 2 ∧ rejectRcode 2 = 4 ∧ acceptVerdict 0x0100 1 0 0 1 = 0 := by decide
 
+/-- the wire body's folded key is the decoded body's lookup key, for every spelling of every name -/
+theorem foldedKey_eq_lookupKey (labels : List Str) : foldedKey labels = lookupKey (present labels) := by
+  unfold foldedKey lookupKey present
+  by_cases h : labels = []
+  · subst h; decide
+  · simp only [h, if_false, List.getLast?_append, List.getLast?_singleton, Option.some_or, if_true, List.dropLast_concat]
+    rw [map_lower_joinDots]
+
+/-- **hostsfile: the wire branch answers exactly what the decoded body
+answers** — same hand-on to the next handler, same answer records — for every
+hosts database (entries, wildcards, reverse names), every name in every
+letter case and every qtype: both bodies index the database with the same
+folded key, and PTR questions reach the case-sensitive reverse-IP parser in
+the client's own spelling on both. -/
+theorem hosts_wire_eq_msg (db : HostsDB) (labels : List Str) (qtype : Nat) :
+    hostsWire db labels qtype = hostsMsg db labels qtype := by
+  unfold hostsWire hostsMsg
+  rw [foldedKey_eq_lookupKey]
+
+/-- … and the key does not depend on the letter case the client chose (0x20): a
+hit in one spelling is a hit in every spelling, on both paths — except PTR, where
+the spelling reaches the reverse-IP parser unchanged on both. -/
+theorem hosts_key_case_insensitive (labels labels' : List Str)
+    (h : labels.map (·.map lowerChar) = labels'.map (·.map lowerChar)) :
+    foldedKey labels = foldedKey labels' ∧ lookupKey (present labels) = lookupKey (present labels') := by
+  refine ⟨by unfold foldedKey; rw [h], ?_⟩
+  rw [← foldedKey_eq_lookupKey, ← foldedKey_eq_lookupKey]; unfold foldedKey; rw [h]
+
+-- non-vacuity: a mixed-case spelling of a host with an A record; an upper-case reverse name misses on both
+example :
+    let db : HostsDB := { hosts := [⟨"host1.zt".toList, true, false, false⟩], wildcards := [⟨"wild.zt".toList, true, false⟩],
+                          ptrs := ["10.2.0.192.in-addr.arpa.".toList] }
+    hostsWire db ["HoSt1".toList, "ZT".toList] 1 = .reply [1] ∧ hostsMsg db ["HoSt1".toList, "ZT".toList] 1 = .reply [1] ∧
+    hostsWire db ["a".toList, "wild".toList, "zt".toList] 1 = .reply [1] ∧
+    hostsWire db ["10".toList, "2".toList, "0".toList, "192".toList, "IN-ADDR".toList, "arpa".toList] 12 = .next := by
+  decide
+
 /-! ## 6. Facts regenerated from the tree (one-directional side conditions) -/
 
 /-- The real `ApplyReply` / `ClearAD`, evaluated on every single-bit word (and
